@@ -53,32 +53,27 @@ Theorem C14_tables_match_reference :
 Proof. exact tables_match_reference. Qed.
 
 Theorem C14_rpn_correct_xls : forall show_f64 env e,
-  wf_xls env e = true -> known_xls e = None -> N.of_nat (length (encode_xls e)) < 65536 ->
+  wf_xls env e = true -> N.of_nat (length (encode_xls e)) < 65536 ->
   xls_parse_formula show_f64 env (frame_xls (encode_xls e)) = Ok (render_xls show_f64 env e).
 Proof. exact rpn_correct_xls. Qed.
 
 Theorem C14_rpn_correct_xlsb : forall show_f64 env e,
-  wf_xlsb env e = true -> known_xlsb e = None ->
+  wf_xlsb env e = true ->
   xlsb_parse_formula show_f64 env (encode_xlsb e) = Ok (render_xlsb show_f64 env e).
 Proof. exact rpn_correct_xlsb. Qed.
 
-(* known classes: the current code departs from the property there (witnesses by computation) *)
-Theorem C14_refuted_K_STR_WIDE :
-  exists env e, wf_xls env e = true /\ N.of_nat (length (encode_xls e)) < 65536 /\
-    known_xls e = Some K_STR_WIDE /\
-    forall show_f64, xls_parse_formula show_f64 env (frame_xls (encode_xls e)) <> Ok (render_xls show_f64 env e).
-Proof. exact rpn_refuted_str_wide. Qed.
-
-Theorem C14_refuted_K_STR_QUOTE_xls :
-  exists env e, wf_xls env e = true /\ N.of_nat (length (encode_xls e)) < 65536 /\
-    known_xls e = Some K_STR_QUOTE /\
-    forall show_f64, xls_parse_formula show_f64 env (frame_xls (encode_xls e)) <> Ok (render_xls show_f64 env e).
-Proof. exact rpn_refuted_str_quote_xls. Qed.
-
-Theorem C14_refuted_K_STR_QUOTE_xlsb :
-  exists env e, wf_xlsb env e = true /\ known_xlsb e = Some K_STR_QUOTE /\
-    forall show_f64, xlsb_parse_formula show_f64 env (encode_xlsb e) <> Ok (render_xlsb show_f64 env e).
-Proof. exact rpn_refuted_str_quote_xlsb. Qed.
+(* no known class is left: K_STR_WIDE (F21) was fixed by a3d91ee, K_STR_QUOTE by 6ef7f34; the former
+   witnesses now satisfy the spec (16-bit strings incl. surrogate pairs and doubled quotes are part
+   of the proved grammar) *)
+Example C14_former_known_witnesses_nonvacuous :
+  let env := {| xe_sheets := []; xe_names := []; xe_xtis := [] |} in
+  let benv := {| be_sheets := []; be_names := [] |} in
+  xls_parse_formula (fun _ => []) env (frame_xls (encode_xls (EStr true [97; 98]))) = Ok (lit """ab""") /\
+  xls_parse_formula (fun _ => []) env (frame_xls (encode_xls (EStr false [97; 34; 98]))) = Ok (lit """a""""b""") /\
+  xlsb_parse_formula (fun _ => []) benv (encode_xlsb (EStr false [97; 34; 98])) = Ok (lit """a""""b""") /\
+  xls_parse_formula (fun _ => []) env (frame_xls (encode_xls (EStr true [20013; 128512]))) = Ok [34; 20013; 128512; 34] /\
+  xlsb_parse_formula (fun _ => []) benv (encode_xlsb (EStr false [65279; 128512])) = Ok [34; 65279; 128512; 34].
+Proof. exact former_known_witnesses. Qed.
 
 (* ---------------------------------------------------------------- positions *)
 Theorem C14_formula_positions : forall (formulas : list (pos * list N)),
@@ -91,11 +86,12 @@ Proof. exact formula_positions. Qed.
 
 (* ---------------------------------------------------------------- non-vacuity *)
 Example C14_rpn_nonvacuous :
-  wf_xls ex_env_xls ex_expr = true /\ known_xls ex_expr = None /\
+  wf_xls ex_env_xls ex_expr = true /\
   N.of_nat (length (encode_xls ex_expr)) < 65536 /\
-  wf_xlsb ex_env_xlsb ex_expr = true /\ known_xlsb ex_expr = None /\
+  wf_xlsb ex_env_xlsb ex_expr = true /\
   render_xls (fun _ => []) ex_env_xls ex_expr =
-    lit "SUM(A1,$AB$2:XFD65536,,Sheet2!B$3)+-(""hi"")*IF(TRUE,rate,SUM(7))%".
+    lit "SUM(A1,$AB$2:XFD65536,,Sheet2!B$3)+-(""h""""i""&""" ++ [26085; 128512] ++
+    lit """)*IF(TRUE,rate,SUM(7))%".
 Proof. exact rpn_nonvacuous. Qed.
 
 Example C14_a1_nonvacuous :
@@ -116,10 +112,10 @@ Proof. exact formula_positions_nonvacuous. Qed.
 Check C14_push_column_is_letters : forall col buf, col < 2 ^ 32 ->
   push_column col buf = Ok (buf ++ letters col).
 Check C14_rpn_correct_xls : forall show_f64 env e,
-  wf_xls env e = true -> known_xls e = None -> N.of_nat (length (encode_xls e)) < 65536 ->
+  wf_xls env e = true -> N.of_nat (length (encode_xls e)) < 65536 ->
   xls_parse_formula show_f64 env (frame_xls (encode_xls e)) = Ok (render_xls show_f64 env e).
 Check C14_rpn_correct_xlsb : forall show_f64 env e,
-  wf_xlsb env e = true -> known_xlsb e = None ->
+  wf_xlsb env e = true ->
   xlsb_parse_formula show_f64 env (encode_xlsb e) = Ok (render_xlsb show_f64 env e).
 Check C14_a1_roundtrip : forall r c, r + 1 < ROW_TEXT_LIMIT -> c < 16384 ->
   exists s, coordinate_to_name (r, c) = Ok s /\ get_row_column s = Ok (r, c).
@@ -141,7 +137,4 @@ Print Assumptions C14_lower_case_agrees.
 Print Assumptions C14_tables_match_reference.
 Print Assumptions C14_rpn_correct_xls.
 Print Assumptions C14_rpn_correct_xlsb.
-Print Assumptions C14_refuted_K_STR_WIDE.
-Print Assumptions C14_refuted_K_STR_QUOTE_xls.
-Print Assumptions C14_refuted_K_STR_QUOTE_xlsb.
 Print Assumptions C14_formula_positions.
